@@ -1,43 +1,4 @@
-import OpyVerif.Proofs.SweepProg
-import OpyVerif.Generated.Sweeps
-/-!
-The machine's sweep rule is what the *translated* `_evaluate` methods do: `Gen.genericSweep`, `Gen.psoSweep`,
-`Gen.gpSweep` are read from the current working tree; for each, some tie flag makes the loop body equal to
-`sweepAgent` / `takes` / `bestOf` of `Model/Machine` — the rule every C02 / C03 / C20 machine theorem is about.
--/
-namespace Opy
-
-theorem code_genericSweep (cfg : Cfg) (hs : cfg.swarm = false) (a best : Ag) (v : Int) (fresh : Nat) (tp : Pos) :
-    ∃ tie, Gen.genericSweep.body cfg.lbs cfg.ubs tp v fresh a best =
-      (sweepAgent cfg a v, if takes best (sweepAgent cfg a v) tie then bestOf (sweepAgent cfg a v) fresh else best) := by
-  rcases Gen.genericSweep_eq with h | h <;> rw [h]
-  · exact ⟨false, genericSweep_is_machine_rule cfg hs a best v fresh tp⟩
-  · exact ⟨true, genericSweepLe_is_machine_rule cfg hs a best v fresh tp⟩
-
-theorem code_psoSweep (cfg : Cfg) (hs : cfg.swarm = true) (a best : Ag) (v : Int) (fresh : Nat) (tp : Pos) :
-    ∃ tie, Gen.psoSweep.body cfg.lbs cfg.ubs tp v fresh a best =
-      (sweepAgent cfg a v, if takes best (sweepAgent cfg a v) tie then bestOf (sweepAgent cfg a v) fresh else best) := by
-  rcases Gen.psoSweep_eq with h | h <;> rw [h]
-  · exact ⟨false, psoSweep_is_machine_rule cfg hs a best v fresh tp⟩
-  · exact ⟨true, psoSweepLe_is_machine_rule cfg hs a best v fresh tp⟩
-
-theorem code_gpSweep (cfg : Cfg) (hs : cfg.swarm = false) (a best : Ag) (v : Int) (fresh : Nat) (tp : Pos) :
-    ∃ tie, Gen.gpSweep.body cfg.lbs cfg.ubs tp v fresh a best =
-      (let a0 := { a with pos := clipPos cfg.lbs cfg.ubs tp }
-       (sweepAgent cfg a0 v, if takes best (sweepAgent cfg a0 v) tie then bestOf (sweepAgent cfg a0 v) fresh else best)) := by
-  rcases Gen.gpSweep_eq with h | h <;> rw [h]
-  · exact ⟨false, gpSweep_is_machine_rule cfg hs a best v fresh tp⟩
-  · exact ⟨true, gpSweepLe_is_machine_rule cfg hs a best v fresh tp⟩
-
-/-- every translated sweep calls the objective exactly once per agent -/
-theorem code_sweeps_eval_once :
-    Gen.genericSweep.evalsOnce = true ∧ Gen.psoSweep.evalsOnce = true ∧ Gen.gpSweep.evalsOnce = true := by
-  refine ⟨?_, ?_, ?_⟩
-  · rcases Gen.genericSweep_eq with h | h <;> rw [h] <;> decide
-  · rcases Gen.psoSweep_eq with h | h <;> rw [h] <;> decide
-  · rcases Gen.gpSweep_eq with h | h <;> rw [h] <;> decide
-
-/-- only `Optimizer`, `PSO` and `GP` define a sweep; every other optimizer inherits one of the three -/
-theorem code_sweep_owners : Gen.sweepOwners = ["GP", "Optimizer", "PSO"] := Gen.sweepOwners_eq
-
-end Opy
+import OpyVerif.Proofs.SweepCodeGeneric
+import OpyVerif.Proofs.SweepCodePso
+import OpyVerif.Proofs.SweepCodeGp
+import OpyVerif.Proofs.SweepCodeAll
